@@ -317,6 +317,86 @@ pub fn check_input(alg: Algorithm, old8: &[u8], new8: &[u8], deep: bool) -> Resu
     })
 }
 
+// ---- virtual time: the VALUE of the configured deadline / timeout matters ------------------
+
+/// For every k: a deadline placed between probe k-1 and probe k of the virtual time line must
+/// expire exactly at probe k, however it was configured: capture_diff_deadline, builder
+/// deadline(), builder timeout(), and the two setter sequences on which "the last setter wins"
+/// and "the earliest limit wins" agree (far limit first, then the short one).
+pub fn check_virtual_time(alg: Algorithm, old: &[u8], new: &[u8]) -> Result<(bool, u64, u64), String> {
+    use crate::instr::{arm_virtual_time, vt};
+    let (n, m) = (old.len(), new.len());
+    let (o, nn) = (toks(old), toks(new));
+    let (_, pinf) = captured_deadline(0, alg, old, new, u64::MAX)?;
+    let mut fp = Fp::new();
+    let mut runs = 0;
+    let far = vt(1_000_000, false);
+    for k in 0..=pinf {
+        // reference: index-based clock expiring at probe k (k == pinf: never within this run)
+        let (want, _) = captured_deadline(0, alg, old, new, if k == pinf { u64::MAX } else { k })?;
+        let deadline = if k == 0 { vt(0, false) - Duration::from_millis(500) } else { vt(k - 1, true) };
+        let timeout_ms = if k == 0 { 0 } else { (k - 1) * 1000 + 500 };
+        let variants: [&str; 6] = [
+            "capture_diff_deadline(Some(instant))",
+            "builder.deadline(instant)",
+            "builder.timeout(duration)",
+            "builder.deadline(far).timeout(duration)",
+            "builder.timeout(far).deadline(instant)",
+            "builder.timeout(duration) configured once, used for two diffs",
+        ];
+        for (vi, name) in variants.iter().enumerate() {
+            if k == 0 && (vi == 2 || vi == 3 || vi == 5) {
+                // a zero timeout is "now", which is not strictly exceeded at probe 0
+                continue;
+            }
+            let got = subject(|| {
+                let _clock = arm_virtual_time();
+                let mut c = TextDiff::configure();
+                c.algorithm(alg);
+                match vi {
+                    0 => return similar::capture_diff_deadline(alg, old, 0..n, new, 0..m, Some(deadline)),
+                    1 => {
+                        c.deadline(deadline);
+                    }
+                    2 | 5 => {
+                        c.timeout(Duration::from_millis(timeout_ms));
+                    }
+                    3 => {
+                        c.deadline(far);
+                        c.timeout(Duration::from_millis(timeout_ms));
+                    }
+                    _ => {
+                        c.timeout(Duration::from_secs(1_000_000));
+                        c.deadline(deadline);
+                    }
+                }
+                if vi == 5 {
+                    // the relative timeout is resolved per diff: a first diff must not move it
+                    let _ = c.diff_slices(&o, &nn).ops().len();
+                    let _clock2 = arm_virtual_time();
+                    return c.diff_slices(&o, &nn).ops().to_vec();
+                }
+                c.diff_slices(&o, &nn).ops().to_vec()
+            })
+            .map_err(|p| format!("{}: panic: {}", name, p))?;
+            runs += 1;
+            if got != want {
+                return Err(format!(
+                    "{} with a limit that falls between probe {} and probe {} of the virtual time line gives {:?}; expiry at exactly probe {} gives {:?} (the configured value does not reach the algorithm unchanged)",
+                    name,
+                    k as i64 - 1,
+                    k,
+                    got,
+                    k,
+                    want
+                ));
+            }
+            fp.add(ops_fp(&got));
+        }
+    }
+    Ok((pinf > 0, runs, fp.0))
+}
+
 // ---- large-input families (promptness) ---------------------------------------------------
 
 pub fn families32(n: usize, seed: u64) -> Vec<(String, Vec<u32>, Vec<u32>)> {
@@ -520,6 +600,39 @@ pub fn run(cfg: &RunCfg) -> CheckReport {
         });
     });
     rep.part("expiry", json!({"scopes": space.describe()}), ex);
+    if rep.has_violation() {
+        return rep;
+    }
+    // value-aware virtual time: the configured deadline / timeout VALUE decides the expiry probe
+    let vspace = PairSpace::new(match cfg.tier {
+        Tier::Quick => vec![Scope::P { k: 3, n: 4 }, Scope::P { k: 2, n: 6 }, Scope::R { l: 7 }],
+        Tier::Thorough => vec![Scope::P { k: 3, n: 5 }, Scope::P { k: 2, n: 8 }, Scope::R { l: 9 }],
+    });
+    let ex = explore(cfg, vspace.nshards(), |shard, acc| {
+        vspace.for_each(shard, |old, new| {
+            for &alg in ALGS.iter() {
+                match check_virtual_time(alg, old, new) {
+                    Ok((nt, runs, fp)) => {
+                        if acc.want_sample() {
+                            acc.sample(seq_case(alg, old, new));
+                        }
+                        acc.count("runs", runs);
+                        acc.ok(nt, runs, fp);
+                    }
+                    Err(e) => acc.violation(|| {
+                        let mut c = seq_case(alg, old, new);
+                        c["virtual_time"] = json!(true);
+                        (c, e)
+                    }),
+                }
+                if acc.stop() {
+                    return false;
+                }
+            }
+            true
+        });
+    });
+    rep.part("virtual-time", json!({"scopes": vspace.describe(), "clauses": "a limit between virtual probe k-1 and k expires exactly at probe k: capture_diff_deadline, builder deadline(), builder timeout(), deadline(far) then timeout(short), timeout(far) then deadline(short), one config used for two diffs"}), ex);
 
     let sizes: Vec<usize> = match cfg.tier {
         Tier::Quick => vec![64, 128, 256],
@@ -579,5 +692,8 @@ pub fn replay(case: &Value) -> Result<String, String> {
     }
     let old = parse_seq(case, "old")?;
     let new = parse_seq(case, "new")?;
+    if case.get("virtual_time").is_some() {
+        return check_virtual_time(alg, &old, &new).map(|o| format!("holds; {} runs", o.1));
+    }
     check_input(alg, &old, &new, true).map(|o| format!("holds; {} runs, fingerprint {:x}", o.runs, o.fp))
 }
